@@ -74,6 +74,7 @@ ASSUMED = []      # free-text assumptions taken on this run (reported in evidenc
 STATS = {"inexact_float_lifts": 0, "generic_branches": 0}
 _ALG = {}
 _DEF_CACHE = {}
+DEF_INV = {}      # sid of w = 1/p  ->  p   (see decide.clear_denominators)
 _GEN_CACHE = {}   # exp / exp10 generators keyed by the monomial of the exponent
 _LOG_CACHE = {}
 _LOG_INV = {}     # exponent symbol L (sid) -> the quantity p with L = log10(p)
@@ -88,6 +89,7 @@ def reset():
     STATS["generic_branches"] = 0
     _ALG.clear()
     _DEF_CACHE.clear()
+    DEF_INV.clear()
     _GEN_CACHE.clear()
     _LOG_CACHE.clear()
     _LOG_INV.clear()
@@ -978,6 +980,9 @@ def _defined_inverse(p):
         HYP.append((f"def-inverse-conj:{TAB.names[i]}", _mono(j) * p.conjugate() - 1))
     w = _mono(i)
     HYP.append((f"def-inverse:{TAB.names[i]}", w * p - 1))
+    DEF_INV[i] = p
+    if not isreal:
+        DEF_INV[TAB.partner[i]] = p.conjugate()
     if len(ASSUMED) < 60:
         ASSUMED.append(f"division by a symbolic quantity assumed non-zero: {p!r}"[:200])
     if _sign_known(p) == 1:
